@@ -132,8 +132,8 @@ static void drv_apply(const vop_t *op, jb_t *res)
     case 2: {
         struct el probe; const void *r, *par = (void *)&probe;
         memset(&probe, 0, sizeof probe); probe.key = op->a[0];
-        r = RB ? cstl_rbtree_find(&T[cur], &probe, &par) : cstl_bintree_find(BT(), &probe, &par);
-        jb_printf(res, ",\"ret\":%d,\"par\":%d", id_of_el(r), id_of_el(par));
+        r = RB ? cstl_rbtree_find(&T[cur], &probe, op->a[1] ? NULL : &par) : cstl_bintree_find(BT(), &probe, op->a[1] ? NULL : &par);
+        jb_printf(res, ",\"ret\":%d,\"par\":%d", id_of_el(r), op->a[1] ? 0 : id_of_el(par));   /* a[1]: the parent is not asked for */
         break;
     }
     case 3: {
@@ -171,7 +171,7 @@ static void drv_opjson(const vop_t *op, jb_t *b)
     switch (op->k) {
     case 0: jb_printf(b, "\"op\":\"ins\",\"n\":%d,\"h\":%s", op->a[0], op->a[1] ? "true" : "false"); break;
     case 1: jb_printf(b, "\"op\":\"era\",\"k\":%d", op->a[0]); break;
-    case 2: jb_printf(b, "\"op\":\"find\",\"k\":%d", op->a[0]); break;
+    case 2: jb_printf(b, "\"op\":\"find\",\"k\":%d,\"nopar\":%s", op->a[0], op->a[1] ? "true" : "false"); break;
     case 3: jb_printf(b, "\"op\":\"foreach\",\"rev\":%s,\"stop\":%d", op->a[0] ? "true" : "false", op->a[1]); break;
     case 4: jb_printf(b, "\"op\":\"clear\",\"poison\":%s", op->a[0] ? "true" : "false"); break;
     case 5: jb_puts(b, "\"op\":\"height\""); break;
@@ -230,7 +230,7 @@ static int drv_enum(vop_t *ops, int max)
     for (n = 1; n <= N; n++) if (!held[n]) for (h = 0; h < 2; h++) { vop_t o = { 0, { n, h } }; ops[no++] = o; }
     for (k = 1; k <= MAXK; k++) { vop_t o = { 1, { k } }; ops[no++] = o; }
     if (PROBES) {
-        for (k = 0; k <= MAXK + 1; k++) { vop_t o = { 2, { k } }; ops[no++] = o; }
+        for (k = 0; k <= MAXK + 1; k++) { vop_t o = { 2, { k } }, o2 = { 2, { k, 1 } }; ops[no++] = o; ops[no++] = o2; }
         for (d = 0; d < 2; d++) for (j = 0; j <= 3 * sz && j <= 2 * N; j++) {
             /* stop positions: never (0), and each callback index that can occur */
             vop_t o = { 3, { d, j } };
@@ -253,7 +253,7 @@ static int drv_random(unsigned long (*rnd)(void), vop_t *op)
         if (held[n]) { op->k = 1; op->a[0] = pool[n].key; return 1; }
         op->k = 0; op->a[0] = n; op->a[1] = (int)(rnd() & 1);
     } else if (r < 85) { op->k = 1; op->a[0] = 1 + (int)(rnd() % (unsigned)MAXK);
-    } else if (r < 90) { op->k = 2; op->a[0] = (int)(rnd() % (unsigned)(MAXK + 2));
+    } else if (r < 90) { op->k = 2; op->a[0] = (int)(rnd() % (unsigned)(MAXK + 2)); op->a[1] = (int)(rnd() & 1);
     } else if (r < 95) { op->k = 3; op->a[0] = (int)(rnd() & 1); op->a[1] = (rnd() & 1) ? 0 : (int)(rnd() % (unsigned)(2 * sz + 1));
     } else if (r < 97) { op->k = 5;
     } else if (r < 98 && sz < 12) { op->k = 4; op->a[0] = 1;
